@@ -125,6 +125,41 @@ var hostileFixed = []string{
 	"dat " + strings.Repeat("9", 10000) + "\n",
 }
 
+// scaling families: inputs of about 50 KB whose cost must stay within the same per-call CPU budget
+func init() {
+	var b strings.Builder
+	n := 3000
+	for i := 0; i < n-1; i++ {
+		fmt.Fprintf(&b, "e%d equ e%d\n", i, i+1)
+	}
+	fmt.Fprintf(&b, "e%d equ 1\ndat e0\n", n-1)
+	hostileFixed = append(hostileFixed, b.String()) // a chain of 3000 EQUs, each a single token: every expansion has one token
+	b.Reset()
+	for i := 0; i < 4000; i++ {
+		fmt.Fprintf(&b, "l%d dat l%d, 1\n", i, (i*7)%4000)
+	}
+	hostileFixed = append(hostileFixed, b.String()) // 4000 labels, each referenced
+	b.Reset()
+	for i := 0; i < 4000; i++ {
+		fmt.Fprintf(&b, "e%d equ %d\n", i, i)
+	}
+	b.WriteString("dat e1, e3999\n")
+	hostileFixed = append(hostileFixed, b.String()) // 4000 independent EQUs
+	b.Reset()
+	for i := 0; i < 3000; i++ {
+		b.WriteString(";assert 1+1 == 2\n")
+	}
+	b.WriteString("dat 0\n")
+	hostileFixed = append(hostileFixed, b.String())
+	b.Reset()
+	b.WriteString("i for 10\n")
+	for i := 0; i < 400; i++ {
+		b.WriteString("dat i, 1\n")
+	}
+	b.WriteString("rof\n")
+	hostileFixed = append(hostileFixed, b.String())
+}
+
 // estimateExpansion bounds the number of tokens after FOR expansion from above
 // (product of FOR counts times tokens; a count is bounded by the product of its
 // literals and of the bounds of the EQUs it names, an unknown identifier by the
@@ -354,9 +389,10 @@ func (tg *textGen) hostile(idx int64, r *Rng, d asm.Dialect, cfg asm.Config) (st
 			}
 		case x < 16:
 			text = hostileFixed[r.Intn(len(hostileFixed))]
-			if len(text) < 2000 {
-				text = mutateBytes(r, text)
+			if len(text) >= 2000 {
+				continue // the big fixed inputs run once, as themselves
 			}
+			text = mutateBytes(r, text)
 			class = "fixed-mutated"
 		default:
 			text = soup(r)
